@@ -22,6 +22,7 @@ package lib
 //	J           wait until every frame of the stream has been answered               -> one more g entry
 //	V:<path-hex>:<content-hex>  close the well-behaved session, then the file must be on disk (attachment) -> v=1
 //	X:<path-hex>:<content-hex>  x=1 when the file finally holds exactly this content
+//	T:<ms>      let real time pass (model: the clock of the following reads advances)
 //	W           wait 60 ms (teardown of a connection that was just closed)
 //	A:<hex>     accept check: a NEW connection, send, wait for the answer, close  -> a=<hex>
 //
@@ -141,6 +142,7 @@ func init() {
 	RegisterOp("contain808", func(a []string) string { return c10ContainOp("808", a) })
 	RegisterOp("containatt", func(a []string) string { return c10ContainOp("att", a) })
 	RegisterOp("contain808mem", c10MemOp)
+	RegisterOp("parse808age", c10ParseAgeOp)
 	RegisterOp("containfd", c10FdOp)
 	RegisterOp("containbuf", c10BufOp)
 }
@@ -560,7 +562,7 @@ func c10ContainOnce(kind string, a []string) (result string, suspect bool) {
 		}
 		head, hx, _ := strings.Cut(tok, ":")
 		var data []byte
-		if hx != "" && head != "V" && head != "X" && head != "C" {
+		if hx != "" && head != "V" && head != "X" && head != "C" && head != "T" {
 			data = Unhx(hx)
 		}
 		switch {
@@ -668,6 +670,8 @@ func c10ContainOnce(kind string, a []string) (result string, suspect bool) {
 				}
 			}
 			xcheck += hit
+		case head == "T":
+			time.Sleep(time.Duration(atoi(hx)) * time.Millisecond) // real time passes (thorough tier: the 60 s expiry over a socket)
 		case head == "W":
 			time.Sleep(60 * time.Millisecond) // let the server finish the teardown of a connection just closed
 		case head == "A":
@@ -989,6 +993,38 @@ func c10BufOp(a []string) string {
 		res += fmt.Sprintf(" death=%q", child.Death())
 	}
 	return res
+}
+
+// parse808age f:<hex> | a:<ms> ... : the JT808 parser of ONE connection (service.VerifParser: packageParse.parse unchanged)
+// fed read by read with its clock advanced by a:<ms> (VerifParser.Age shifts the create / update times of the pending
+// transfers back) - the 60 s expiry and the 5 s re-request cannot be waited for on a socket in the quick tier.  Per read:
+// number of delivered messages and the error flag; a panic (which in the server is the death of the process, the parser
+// runs in the reader goroutine) ends the script.  Model side: Server.parse_chk with the same clock.
+func c10ParseAgeOp(a []string) string {
+	v := service.NewVerifParser()
+	var out []string
+	for _, tok := range a {
+		head, arg, _ := strings.Cut(tok, ":")
+		switch head {
+		case "a":
+			v.Age(time.Duration(atoi(arg)) * time.Millisecond)
+		case "f":
+			res := func() (r string) {
+				defer func() {
+					if x := recover(); x != nil {
+						r = "panic"
+					}
+				}()
+				ms, err := v.Feed(Exact(Unhx(arg)))
+				return fmt.Sprintf("n=%d,e=%d", len(ms), b2i(err != nil))
+			}()
+			out = append(out, res)
+			if res == "panic" {
+				return "ok " + strings.Join(out, " ")
+			}
+		}
+	}
+	return "ok " + strings.Join(out, " ")
 }
 
 // C10Long is a well-behaved session that stays open across many scripts (direct oracle only): every Ping sends
